@@ -202,3 +202,32 @@ def check_optional_dim(ctx, rule="EMPTY"):
                    f"raises when `{bad[1] if bad else ''}` is false without exempting `{bad[2] if bad else ''}.{bad[3] if bad else ''} is None`: an emulsion without droplets has no layout, "
                    "so a frame in which nothing was located after a populated frame aborts the tracker / from_storage with this error")
     return n
+
+
+def check_slice_stop_index(ctx, rule="BOUNDS"):
+    """`find_objects` slices are half-open: `.stop` is one past the last cell of a cluster and equals the axis length when the
+    cluster touches the upper boundary.  It may be transformed as a cell-boundary coordinate, but indexing a per-cell array
+    (axes_coords, cell volumes, the image) with it raises IndexError for such clusters."""
+    m = ctx.model
+    n = 0
+    for fi in m.all_functions():
+        if fi.module.name != IMG or not fi.name.startswith("_locate_droplets_in_mask"):
+            continue
+        fv = view(m, fi)
+        bad = None
+        for sub in ast.walk(fi.node):
+            if not (isinstance(sub, ast.Subscript) and isinstance(sub.ctx, ast.Load)):
+                continue
+            if fv.node_of(sub) is None:
+                continue
+            idx = fv.expand(sub.slice, sub, allow_mutated=True)
+            if not (isinstance(idx, ast.Attribute) and idx.attr == "stop"):
+                continue
+            base = U(fv.expand(sub.value, sub, allow_mutated=True))
+            if "axes_coords" in base or "cell_coords" in base or "cell_volume" in base or base.endswith(".data") or "discretization" in base:
+                bad = (sub, base)
+        n += 1
+        ctx.decide(bad is None, rule, f"{fi.qualname}:slice-stop", (fi, bad[0]) if bad else fi, "no per-cell array is indexed with the exclusive end of a cluster slice",
+                   f"`{U(bad[0])[:60] if bad else ''}` indexes the per-cell array `{bad[1][:40] if bad else ''}` with a slice's `.stop` (one past the last cell): for a cluster that reaches the last cell "
+                   "of the axis this is out of range and IndexError escapes the locator (a dense region touching the outer boundary, a homogeneous field above the threshold)")
+    return n
